@@ -118,6 +118,60 @@ fn short_strings(n: usize) -> Vec<String> {
     out
 }
 
+fn base_kind(b: &J) -> &str {
+    match b {
+        J::String(s) => s.as_str(),
+        J::Object(o) => o.get("type").and_then(|t| t.as_str()).unwrap_or(""),
+        _ => "",
+    }
+}
+
+/// Does some record field with a default satisfy `pred(default, branch)` for its type or, when the
+/// type is a union, for one of its branches? References are followed to their definition.
+fn field_with(j: &J, pred: &dyn Fn(&J, &J) -> bool) -> bool {
+    fn defs(j: &J, out: &mut Vec<J>) {
+        match j {
+            J::Object(o) => {
+                if matches!(o.get("type").and_then(|t| t.as_str()), Some("enum" | "fixed" | "record")) && o.contains_key("name") {
+                    out.push(j.clone());
+                }
+                o.values().for_each(|v| defs(v, out));
+            }
+            J::Array(a) => a.iter().for_each(|v| defs(v, out)),
+            _ => {}
+        }
+    }
+    let mut all = vec![];
+    defs(j, &mut all);
+    let deref = |b: &J| -> J {
+        if let J::String(s) = b {
+            let simple = s.rsplit('.').next().unwrap_or(s);
+            if let Some(d) = all.iter().find(|d| d.get("name").and_then(|n| n.as_str()).is_some_and(|n| n.rsplit('.').next() == Some(simple))) {
+                return d.clone();
+            }
+        }
+        b.clone()
+    };
+    fn walk(j: &J, f: &mut dyn FnMut(&J, &J) -> bool) -> bool {
+        match j {
+            J::Object(o) => {
+                if let (Some(d), Some(t)) = (o.get("default"), o.get("type")) {
+                    if o.contains_key("name") && f(d, t) {
+                        return true;
+                    }
+                }
+                o.values().any(|v| walk(v, f))
+            }
+            J::Array(a) => a.iter().any(|v| walk(v, f)),
+            _ => false,
+        }
+    }
+    walk(j, &mut |d, t| match t {
+        J::Array(br) => br.iter().any(|b| pred(d, &deref(b))),
+        other => pred(d, &deref(other)),
+    })
+}
+
 /// Recorded deviations by input pattern.
 fn deviation(j: Option<&J>, clause: &str, detail: &str) -> Option<&'static str> {
     fn any(j: &J, f: &dyn Fn(&serde_json::Map<String, J>) -> bool) -> bool {
@@ -143,12 +197,20 @@ fn deviation(j: Option<&J>, clause: &str, detail: &str) -> Option<&'static str> 
         "ill-formed-schema-accepted" | "operation-on-accepted-schema-panicked" if defined_twice && (detail.contains("is defined twice") || detail.contains("same fullname")) => Some("D-C11-duplicate-full-name-accepted"),
         "ill-formed-schema-accepted" if non_object_field && detail == "record field is not an object" => Some("D-C11-non-object-entries-in-fields-ignored"),
         "ill-formed-schema-accepted" if detail.ends_with("fixed default of the wrong size") => Some("D-C11-fixed-default-of-wrong-size-accepted"),
-        "ill-formed-schema-accepted" if detail.starts_with("default of field") && detail.ends_with("code point above 255") => Some("D-C11-bytes-or-fixed-default-with-code-point-above-255-accepted"),
-        "ill-formed-schema-accepted" if detail.starts_with("default of field") && detail.ends_with("string expected") && any(j, &|o| o.get("default").is_some_and(|d| d.is_array()) && o.get("type").is_some_and(|t| t == "bytes" || t.get("type") == Some(&json!("bytes")))) => Some("D-C11-array-default-for-bytes-accepted"),
+        "ill-formed-schema-accepted"
+            if detail.starts_with("default of field") && field_with(j, &|d, b| d.as_str().is_some_and(|s| base_kind(b) == "fixed" && b.get("size").and_then(|x| x.as_u64()).is_some_and(|n| n as usize != s.chars().count()))) =>
+        {
+            Some("D-C11-fixed-default-of-wrong-size-accepted")
+        }
+        "ill-formed-schema-accepted" if detail.starts_with("default of field") && field_with(j, &|d, b| d.as_str().is_some_and(|s| s.chars().any(|c| c as u32 > 255)) && matches!(base_kind(b), "bytes" | "fixed")) => {
+            Some("D-C11-bytes-or-fixed-default-with-code-point-above-255-accepted")
+        }
+        "ill-formed-schema-accepted" if detail.starts_with("default of field") && field_with(j, &|d, b| d.is_array() && base_kind(b) == "bytes") => Some("D-C11-array-default-for-bytes-accepted"),
         "ill-formed-schema-accepted"
             if detail.starts_with("default of field")
-                && detail.ends_with("enum default is not a symbol")
-                && any(j, &|o| o.get("default").is_some_and(|d| d.is_string()) && o.get("type").is_some_and(|t| t.get("type") == Some(&json!("enum")) && t.get("default").is_some())) =>
+                && field_with(j, &|d, b| {
+                    d.as_str().is_some_and(|s| b.get("type") == Some(&json!("enum")) && b.get("default").is_some() && !b.get("symbols").and_then(|x| x.as_array()).is_some_and(|a| a.iter().any(|x| x == s)))
+                }) =>
         {
             Some("D-C11-non-symbol-field-default-accepted-when-enum-has-default")
         }
@@ -240,6 +302,13 @@ pub fn run(tier: Tier, replay: Option<&J>) -> i32 {
     // judgement decides per text whether the default conforms (both directions are checked)
     let pool: Vec<J> = vec![json!("not-a-uuid"), json!(12345), json!("ZZ_not_a_symbol"), json!({"zz": 1}), json!([1]), json!(true), J::Null, json!(1.5), json!("\u{100}"), json!(""), json!("67e55044-10b1-426f-9247-bb680e5fe0c8")];
     for (_, j) in &bases {
+        // every schema of the universe also as the type of a field carrying each candidate default
+        let is_record = j.get("type").and_then(|t| t.as_str()) == Some("record");
+        if !is_record && !j.to_string().contains("\"Wrap\"") {
+            for d in &pool {
+                texts_a.push(("wrapped+candidate-default".into(), json!({"type":"record","name":"Wrap","fields":[{"name":"f","type": j, "default": d}]}).to_string()));
+            }
+        }
         for n in texts::nodes(j) {
             if n.kind == texts::NodeKind::Field {
                 for d in &pool {
